@@ -751,6 +751,8 @@ def syntax_doc(w, style):
         return [("attr", " " + l) for l in lines]
     if style == "attr":
         return [("attr", "\n".join(" " + l for l in lines))]
+    if style == "attr-decorated":       # a multi-line #[doc] written like a decorated block
+        return [("attr", "\n".join([""] + [" * " + l if l else " *" for l in lines] + [" "]))]
     if style == "block-decorated":
         body = [""] + [INDENT + " * " + l if l else INDENT + " *" for l in lines] + [INDENT + " "]
     else:
@@ -831,7 +833,8 @@ def large_decls(rng):
         tags=["t%d" % i for i in range(9)],
         path_suffix=("".join("/{p%d}" % i for i in range(9)), ["p%d" % i for i in range(9)], None))
     # words of the comment syntax itself as first / last word of summary and description lines
-    for si, style in enumerate(("line", "block-decorated", "block-plain", "attr", "attr-per-line")):
+    for si, style in enumerate(("line", "block-decorated", "block-plain", "attr", "attr-per-line",
+                                "attr-decorated")):
         for wi, (wname, w) in enumerate(SYNTAX_WORDS):
             add(["syntax:word:" + wname, "syntax:style:" + style], doc=syntax_doc(w, style),
                 kind="channel" if (si * len(SYNTAX_WORDS) + wi) % 7 == 3 else "endpoint")
